@@ -37,4 +37,4 @@ for W in (3,4):
                 t[0]+=1
                 if t[2] is None: t[2]=(str(a),str(b),sorted(r),sorted(want-r))
 for k,v in res.items(): print(k, "unsound", v[0], "of", v[1], "first:", v[2])
-import sys; sys.exit(0)  # prints the counts; every "unsound"/"wrong" count is 0 on the repaired tree
+import sys; sys.exit(1 if any(v[0] for v in res.values()) else 0)
